@@ -288,6 +288,8 @@ fn kinds_for(scenario: &str, r: &mut Rng) -> Vec<ColKind> {
 	let any_kv = [ColKind::Hash, ColKind::HashUniform, ColKind::HashPreimage, ColKind::HashRc, ColKind::Btree];
 	let n = match scenario {
 		"reindex" => 1 + r.below(2) as usize,
+		// rarely: more than a hundred columns (three-digit column numbers in file names)
+		"admin" if r.chance(1, 16) => 101 + r.below(16) as usize,
 		_ => 1 + r.below(4) as usize,
 	};
 	let mut v = Vec::new();
@@ -299,6 +301,7 @@ fn kinds_for(scenario: &str, r: &mut Rng) -> Vec<ColKind> {
 			"rc" => if i == 0 { ColKind::HashRc } else { *r.pick(&[ColKind::HashRc, ColKind::BtreeRc, ColKind::Hash]) },
 			"reindex" => if i == 0 { ColKind::HashUniform } else { *r.pick(&[ColKind::HashUniform, ColKind::Hash]) },
 			"tree" | "treelock" => if i == 0 { tree_kind(r) } else { *r.pick(&[ColKind::Hash, ColKind::Btree]) },
+			"admin" if n > 50 => *r.pick(&[ColKind::Hash, ColKind::Hash, ColKind::Hash, ColKind::Btree, ColKind::HashRc]),
 			"admin" => if r.chance(1, 3) { tree_kind(r) } else { *r.pick(&any_kv) },
 			"migrate" => *r.pick(&[ColKind::Hash, ColKind::Hash, ColKind::HashPreimage, ColKind::HashRc, ColKind::HashUniform, ColKind::Btree]),
 			_ => {
@@ -337,6 +340,7 @@ pub fn gen(scenario: &str, tier: Tier, seed: u64) -> (RunCfg, Vec<Op>) {
 		let nkeys = match scenario {
 			"reindex" => 0, // filled below
 			_ if growth && ci == 0 => 0,
+			_ if kinds.len() > 50 => r.range(1, 3) as usize,
 			"btree" => (if quick { *r.pick(&[6u64, 12, 24, 48, 90, 140]) } else { r.range(8, 400) }) as usize,
 			_ => (if quick { r.range(3, 24) } else { r.range(4, 64) }) as usize,
 		};
@@ -561,6 +565,20 @@ fn gen_ops(r: &mut Rng, cfg: &RunCfg, tier: Tier, big_max: u32) -> Vec<Op> {
 		if !ops.is_empty() {
 			feature("slot_reuse_prefix");
 		}
+		for op in &ops {
+			pipe.apply(op);
+		}
+	}
+	if cfg.cols.len() > 50 {
+		// every column gets something to lose, all of it applied to the tables
+		feature("many_columns");
+		let mut tx = Vec::new();
+		for (c, cc) in cfg.cols.iter().enumerate() {
+			let v = if cc.kind.is_preimage() { cc.preimage_vals[0] } else { ValSpec { len: r.range(1, 40) as u32, seed: r.next(), compressible: false } };
+			tx.push((c as u8, TxOp::Set(0, v)));
+		}
+		ops.push(Op::Commit(tx));
+		ops.push(Op::Drain);
 		for op in &ops {
 			pipe.apply(op);
 		}
